@@ -206,6 +206,19 @@ def rbytes(rng, n):
     return bytes(rng.getrandbits(8) for _ in range(n)) if n else b""
 
 
+EDGE_BYTES = [0x00, 0x09, 0x0a, 0x0b, 0x0c, 0x0d, 0x20, 0x2c, 0x3a, 0x30, 0x7f, 0x80, 0xff]   # NUL, white space, ',', ':', digit, high
+
+
+def rsecret(rng, n=32):
+    """a binary secret of n bytes; often with a first and/or last byte that text handling would treat specially"""
+    b = bytearray(rbytes(rng, n))
+    if n and rng.random() < 0.35:
+        b[0] = rng.choice(EDGE_BYTES)
+    if n and rng.random() < 0.35:
+        b[-1] = rng.choice(EDGE_BYTES)
+    return bytes(b)
+
+
 def rlen(rng, documented):
     """mostly the documented length, else odd lengths"""
     r = rng.random()
@@ -401,8 +414,8 @@ def gen_untagged(ctx, cs, n):
 class FakeServer:
     """the few IServer methods the lease / write-enabler call sites use"""
 
-    def __init__(self, serverid, lease_seed, we_seed, log=None):
-        self._id, self._lease, self._we, self._log = serverid, lease_seed, we_seed, log
+    def __init__(self, serverid, lease_seed, we_seed, log=None, maxsize=2 ** 40):
+        self._id, self._lease, self._we, self._log, self._max = serverid, lease_seed, we_seed, log, maxsize
 
     def get_serverid(self): return self._id
     def get_name(self): return self._id.hex()[:8]
@@ -412,7 +425,7 @@ class FakeServer:
     def get_storage_server(self): return self
 
     def get_version(self):
-        return {b"http://allmydata.org/tahoe/protocols/storage/v1": {b"maximum-immutable-share-size": 2 ** 40}}
+        return {b"http://allmydata.org/tahoe/protocols/storage/v1": {b"maximum-immutable-share-size": self._max}}
 
     # IStorageServer as seen by immutable/upload.py ServerTracker: this is "the storage wrapper"
     def get_buckets(self, si):
@@ -462,9 +475,9 @@ def gen_callsites(ctx, cs, n):
         fp = rbytes(rng, 32)
         rkx = rbytes(rng, 16)
         key = rbytes(rng, 16)
-        secret = rbytes(rng, 32 if rng.random() < 0.8 else rng.choice([0, 1, 29, 31, 33, 43, 64]))
-        lease_seed = rbytes(rng, 20 if rng.random() < 0.9 else rng.choice([0, 19, 21, 32]))
-        we_seed = rbytes(rng, 20 if rng.random() < 0.9 else rng.choice([0, 19, 21, 32]))
+        secret = rsecret(rng, 32 if rng.random() < 0.8 else rng.choice([0, 1, 29, 31, 33, 43, 64]))
+        lease_seed = rsecret(rng, 20 if rng.random() < 0.9 else rng.choice([0, 19, 21, 32]))
+        we_seed = rsecret(rng, 20 if rng.random() < 0.9 else rng.choice([0, 19, 21, 32]))
         srv = FakeServer(rbytes(rng, 20), lease_seed, we_seed)
         usi = rbytes(rng, 16)
         sel_seeds = [rbytes(rng, 20) for _ in range(rng.randrange(1, 6))]
@@ -594,12 +607,12 @@ def _u(s):
 
 def make_object_history(rng):
     """long-lived SecretHolders, MutableFileNodes and immutable Checkers; server stand-ins with colliding identities"""
-    secrets = [rbytes(rng, 32) for _ in range(rng.choice([1, 2]))]
+    secrets = [rsecret(rng, 32) for _ in range(rng.choice([1, 2]))]
     if rng.random() < 0.15:
         secrets.append(rbytes(rng, rng.choice([0, 31, 33])))
     sids = [rbytes(rng, rng.choice([20, 32])) for _ in range(rng.choice([2, 3]))]
-    leases = [rbytes(rng, 20) for _ in range(3)]
-    wes = [rbytes(rng, 20) for _ in range(3)]
+    leases = [rsecret(rng, 20) for _ in range(3)]
+    wes = [rsecret(rng, 20) for _ in range(3)]
     if rng.random() < 0.2:
         leases.append(rbytes(rng, rng.choice([0, 19, 21])))
         wes.append(rbytes(rng, rng.choice([0, 19, 21])))
@@ -689,17 +702,53 @@ def run_object_history(ctx, cs, H):
                    guard(REF1[name], secrets[i]), args=args)
 
 
+def srv_tok(sid, lease, we, mx):
+    """driver token of a server record: serverid/leaseSeed/weSeed/maxImmutableShareSize"""
+    return "%s/%s/%s/%d" % (hx(sid), hx(lease), hx(we), mx)
+
+
+def trackers_str(write, readonly):
+    """canonical text of (write trackers, read-only trackers) given as [(serverid, renew, cancel)]"""
+    f = lambda ts: ",".join("%s=%s=%s" % (hx(a), hx(b), hx(c)) for (a, b, c) in ts) or "-"
+    return "W %s;R %s" % (f(write), f(readonly))
+
+
+def r_trackers(cands, alloc, frs, fcs):
+    """specification: every candidate gets the bucket secrets of ITS OWN lease seed; writeable = advertises enough room"""
+    for (sid, lease, mx) in cands:
+        _need20(lease)
+    mk = lambda c: (c[0], r_pair(b"allmydata_bucket_renewal_secret_v1", frs, c[1]), r_pair(b"allmydata_bucket_cancel_secret_v1", fcs, c[1]))
+    return trackers_str([mk(c) for c in cands if c[2] >= alloc], [mk(c) for c in cands if c[2] < alloc])
+
+
+def observe_create_trackers(sel, sink):
+    """wrap the selector instance's _create_trackers so that its arguments and result are recorded (observation only)"""
+    orig = sel._create_trackers
+
+    def wrapped(candidate_servers, allocated_size, frs, fcs, create):
+        ro, wr = orig(candidate_servers, allocated_size, frs, fcs, create)
+        pos = {id(sv): n for n, sv in enumerate(candidate_servers)}
+        ro_sorted = sorted(ro, key=lambda t: pos[id(t.get_server())])   # read-only trackers come from a set: candidate order
+        sink.append((list(candidate_servers), allocated_size, frs, fcs,
+                     [(t.get_serverid(), t.renew_secret, t.cancel_secret) for t in wr],
+                     [(t.get_serverid(), t.renew_secret, t.cancel_secret) for t in ro_sorted]))
+        return ro, wr
+    sel._create_trackers = wrapped
+
+
 def make_selector_history(rng):
     """one long-lived Tahoe2ServerSelector + SecretHolder, several get_shareholders rounds; between rounds servers are
-    re-announced (same id, new lease seed) or swap seeds"""
-    sids = [bytes([j + 1]) * 20 for j in range(rng.randrange(2, 6))]
+    re-announced (same id, new lease seed) or swap seeds; some servers advertise too little room (read-only / full)"""
+    sids = [bytes([j + 1]) * 20 for j in range(rng.randrange(2, 7))]
     seeds = [rbytes(rng, 20) for _ in range(len(sids) + 2)]
     rounds = []
     same_si = rbytes(rng, 16)
     for r in range(rng.choice([2, 3])):
-        rounds.append({"si": _h(same_si if rng.random() < 0.5 else rbytes(rng, 16)),
-                       "servers": [[_h(sid), _h(rng.choice(seeds))] for sid in sids]})
-    return {"type": "selector", "secret": _h(rbytes(rng, 32)), "rounds": rounds}
+        small = set(rng.sample(range(len(sids)), rng.choice([0, 1, 1, 2]) if len(sids) > 2 else 0))
+        rounds.append({"si": _h(same_si if rng.random() < 0.5 else rbytes(rng, 16)), "total": rng.randrange(1, len(sids) + 2),
+                       "servers": [[_h(sid), _h(rng.choice(seeds)), (rng.choice([0, 10, 1400]) if j in small else 2 ** 40)]
+                                   for j, sid in enumerate(sids)]})
+    return {"type": "selector", "secret": _h(rsecret(rng, 32)), "rounds": rounds}
 
 
 def run_selector_history(ctx, cs, H):
@@ -709,21 +758,69 @@ def run_selector_history(ctx, cs, H):
     secret = _u(H["secret"])
     sh = SecretHolder(secret, b"convergence")
     sel = upload.Tahoe2ServerSelector(b"c17", upload_status=upload.UploadStatus(), reactor=task.Clock())
+    captured = []
+    observe_create_trackers(sel, captured)
     for rn, rd in enumerate(H["rounds"]):
         log = []
         usi = _u(rd["si"])
-        servers = [FakeServer(_u(sid), _u(seed), b"", log) for sid, seed in rd["servers"]]
-        d = sel.get_shareholders(FakeBroker(servers), sh, usi, 1000, 100, 1, len(servers), 1, 1, 500)
+        total = rd.get("total", len(rd["servers"]))
+        recs = [(_u(r[0]), _u(r[1]), r[2] if len(r) > 2 else 2 ** 40) for r in rd["servers"]]
+        servers = [FakeServer(sid, seed, b"", log, mx) for (sid, seed, mx) in recs]
+        del captured[:]
+        d = sel.get_shareholders(FakeBroker(servers), sh, usi, 1000, 100, 1, total, 1, 1, 500)
         d.addErrback(lambda f: None)
+        args = {"history": H, "step": rn}
+        for (cands, alloc, frs, fcs, wr, ro) in captured:
+            # the whole tracker table (file secrets, 2N cut, filter, pairing) as the selector built it
+            line = "uptrackers %s %s %d %d %s" % (hx(secret), hx(usi), total, alloc, " ".join(srv_tok(a, b, b"", c) for (a, b, c) in recs))
+            cut = recs[:2 * total]
+            ref = guard(lambda: r_trackers(cut, alloc, REF2["file_renewal_secret_hash"](REF1["my_renewal_secret_hash"](secret), usi),
+                                           REF2["file_cancel_secret_hash"](REF1["my_cancel_secret_hash"](secret), usi)))
+            cs.add("history Tahoe2ServerSelector tracker table", line, trackers_str(wr, ro), ref, args=args,
+                   signature="secret-at-use-differs:upload-trackers:pairing")
+            ctx.count("selector:tracker tables with %s" % ("a filtered server" if ro else "all servers writeable"))
         ctx.count("selector:allocate_buckets calls", len(log))
         if not log:
             ctx.count("selector:no allocate_buckets call")
         for (seed, si_seen, renew, cancel) in log:
-            args = {"history": H, "step": rn}
             cs.add("history Tahoe2ServerSelector->allocate_buckets renew", "renew %s %s %s" % (hx(secret), hx(usi), hx(seed)),
                    hx(renew) if si_seen == usi else "wrong-si", guard(r_renew, secret, usi, seed), args=args)
             cs.add("history Tahoe2ServerSelector->allocate_buckets cancel", "cancel %s %s %s" % (hx(secret), hx(usi), hx(seed)),
                    hx(cancel) if si_seen == usi else "wrong-si", guard(r_cancel, secret, usi, seed), args=args)
+
+
+def gen_trackers(ctx, cs, n):
+    """Tahoe2ServerSelector._create_trackers called directly: arbitrary candidate lists and share-size limits"""
+    from allmydata.immutable import upload
+    from twisted.internet import task
+    rng = ctx.rng
+    for _ in range(n):
+        ns = rng.choice([0, 1, 2, 3, 5, 8, 12])
+        alloc = rng.choice([1, 100, 1400, 2 ** 32])
+        recs = []
+        for j in range(ns):
+            lease = rbytes(rng, 20 if rng.random() < 0.97 else rng.choice([0, 19, 21]))
+            recs.append((rbytes(rng, 20), lease, rng.choice([0, alloc - 1, alloc, alloc + 1, 2 ** 40, 2 ** 40])))
+        frs, fcs = rbytes(rng, 32), rbytes(rng, 32)
+        sel = upload.Tahoe2ServerSelector(b"c17", upload_status=upload.UploadStatus(), reactor=task.Clock())
+        sel.peer_selector = upload.PeerSelector(1, max(ns, 1), 1, 1)
+        captured = []
+        observe_create_trackers(sel, captured)
+        servers = [FakeServer(a, b, b"", None, c) for (a, b, c) in recs]
+
+        class T:   # stands in for ServerTracker: keeps what it was given
+            def __init__(self, s, r, c): self.s, self.renew_secret, self.cancel_secret = s, r, c
+            def get_server(self): return self.s
+            def get_serverid(self): return self.s.get_serverid()
+
+        def call():
+            sel._create_trackers(servers, alloc, frs, fcs, T)
+            (_c, _a, _f, _g, wr, ro) = captured[-1]
+            return trackers_str(wr, ro)
+        line = "trackers %d %s %s%s" % (alloc, hx(frs), hx(fcs), "".join(" " + srv_tok(a, b, b"", c) for (a, b, c) in recs))
+        cs.add("Tahoe2ServerSelector._create_trackers", line, guard(call), guard(r_trackers, recs, alloc, frs, fcs),
+               signature="secret-at-use-differs:create-trackers:pairing")
+        ctx.count("trackers:%s" % ("some filtered" if any(c < alloc for (_a, _b, c) in recs) else "none filtered"))
 
 
 def make_dirnode_history(rng):
@@ -814,7 +911,8 @@ def make_grid_scenario(rng):
              for _ in range(rng.choice([2, 3, 4]))]
     return {"type": "grid", "seed": rng.randrange(10 ** 6), "servers": ns, "limited": kinds, "k": k, "n": n,
             "files": files, "repair": rng.random() < 0.6, "mutable": rng.random() < 0.7, "mdmf": rng.random() < 0.3,
-            "mkey": rng.randrange(3), "seeds": [[_h(rbytes(rng, 20)), _h(rbytes(rng, 20))] for _ in range(ns)]}
+            "mkey": rng.randrange(3), "seeds": [[_h(rsecret(rng, 20)), _h(rsecret(rng, 20))] for _ in range(ns)],
+            "master": _h(rsecret(rng, 32))}
 
 
 def run_grid_scenario(ctx, cs, S):
@@ -842,11 +940,15 @@ def run_grid_scenario(ctx, cs, S):
                 lease_seed[i], we_seed[i] = _u(S["seeds"][i][0]), _u(S["seeds"][i][1])
                 gs.get_lease_seed = (lambda v=lease_seed[i]: v)
                 gs.get_foolscap_write_enabler_seed = (lambda v=we_seed[i]: v)
+            # the node's master lease secret is an input of the scenario: private/secret as `tahoe create-node` writes it
+            master = _u(S["master"])
+            os.makedirs(os.path.join(basedir, "clients", "00", "private"), 0o700)
+            with open(os.path.join(basedir, "clients", "00", "private", "secret"), "wb") as f:
+                f.write(b32(master) + b"\n")
             c = g.make_client(0, S["k"], 1, S["n"], 128, b"\x00" * 16)
             g.clients.append(c)
-            with open(os.path.join(basedir, "clients", "00", "private", "secret"), "rb") as f:
-                master = unb32(f.read().strip())
             seen = []
+            seen_writes = {}
 
             def spy(i):
                 def _fault(methname, args, kwargs):
@@ -854,7 +956,9 @@ def run_grid_scenario(ctx, cs, S):
                         seen.append((i, methname, args[0], None, args[1], args[2]))
                     elif methname == "slot_testv_and_readv_and_writev":
                         we, rs, cns = args[1]
-                        seen.append((i, methname, args[0], we, rs, cns))
+                        rec = (i, methname, args[0], we, rs, cns)
+                        seen.append(rec)
+                        seen_writes[id(rec)] = list(args[2].keys())   # share numbers written by this call
                     return None
                 return _fault
             for i, w in g.wrappers.items():
@@ -874,8 +978,39 @@ def run_grid_scenario(ctx, cs, S):
                         cs.add(what + " write-enabler", "f2 ssk_write_enabler_hash %s %s" % (hx(writekey), hx(we_seed[i])),
                                hx(we), guard(_r_we, writekey, we_seed[i]), args=args,
                                signature="secret-at-use-differs:%s:write-enabler" % op)
+                # the same traffic through the model of the call sites (Tahoe/Crypto/Use.lean)
+                writers = []
+                for rec in seen:
+                    (i, meth, si, we, rs, cns) = rec
+                    args = {"history": S, "step": op, "server": i, "method": meth}
+                    tok = srv_tok(g.serverid(i), lease_seed[i], we_seed[i], 0)
+                    if meth == "add_lease":
+                        if writekey is None:
+                            line = "chkaddlease %s %s %s" % (hx(master), hx(si_expected), tok)
+                        else:
+                            line = "mutaddlease %s %s %s" % (hx(master), hx(writekey), tok)
+                        cs.add("use %s:add_lease message" % op, line, "%s:%s:%s" % (hx(si), hx(rs), hx(cns)),
+                               guard(lambda: "%s:%s:%s" % (hx(si_expected), hx(r_renew(master, si_expected, lease_seed[i])),
+                                                           hx(r_cancel(master, si_expected, lease_seed[i])))),
+                               args=args, signature="secret-at-use-differs:%s:add-lease-message" % op)
+                    elif meth == "slot_testv_and_readv_and_writev":
+                        for shnum in sorted(seen_writes.get(id(rec), [])):
+                            writers.append((shnum, i, si, we, rs, cns))
+                if writers:
+                    writers = sorted(set(writers))
+                    line = "pubwriters %s %s %s" % (hx(master), hx(writekey), " ".join(
+                        "%s/%d" % (srv_tok(g.serverid(i), lease_seed[i], we_seed[i], 0), shnum) for (shnum, i, _s, _w, _r, _c) in writers))
+                    impl = ",".join("%d=%s=%s=%s=%s=%s" % (shnum, hx(g.serverid(i)), hx(si), hx(we), hx(rs), hx(cns))
+                                    for (shnum, i, si, we, rs, cns) in writers)
+                    ref = guard(lambda: ",".join("%d=%s=%s=%s=%s=%s" % (
+                        shnum, hx(g.serverid(i)), hx(si_expected), hx(_r_we(writekey, we_seed[i])),
+                        hx(r_renew(master, si_expected, lease_seed[i])), hx(r_cancel(master, si_expected, lease_seed[i])))
+                        for (shnum, i, _s, _w, _r, _c) in writers))
+                    cs.add("use %s:writer table" % op, line, impl, ref, args={"history": S, "step": op},
+                           signature="secret-at-use-differs:%s:writer-table" % op)
                 ctx.count("use:%s calls" % op, len(seen))
                 del seen[:]
+                seen_writes.clear()
 
             def leases_on_disk(op, si, mutable, exactly_one):
                 """every share's leases: renewable with the spec secret for its server; optionally exactly one lease"""
@@ -1080,6 +1215,7 @@ def run(ctx):
              ("convergence", lambda: gen_convergence(ctx, cs, ctx.budget(150, 5000))),
              ("hmac/permute", lambda: gen_untagged(ctx, cs, ctx.budget(100, 3000))),
              ("call sites", lambda: gen_callsites(ctx, cs, ctx.budget(120, 3000))),
+             ("uploader tracker tables", lambda: gen_trackers(ctx, cs, ctx.budget(150, 5000))),
              ("call-site histories", lambda: gen_histories(ctx, cs, ctx.budget(40, 1200))),
              ("secrets at the point of use (in-process grid)", lambda: gen_grid_use(ctx, cs, ctx.budget(8, 150))),
              ("derive_mutable_keys", lambda: gen_mutable_keys(ctx, cs, ctx.budget(2, 12)))]
